@@ -39,7 +39,7 @@ func (r Req) String() string {
 
 var sortChoices = [][]string{
 	{"num", "-_id"}, {"-num", "_id"}, {"kw", "_id"}, {"-kw", "-_id"}, {"date", "_id"}, {"-date", "_id"}, {"_id"}, {"-_id"},
-	{"tags:min", "_id"}, {"-tags:max", "_id"}, {"tags:max", "-_id"}, {"flag", "num", "_id"}, {"-_score", "_id"}, {"_score", "-_id"}, {"kw", "-num", "_id"},
+	{"tags:min", "_id"}, {"-tags:max", "_id"}, {"tags:max", "-_id"}, {"flag", "num", "_id"}, {"num#n", "_id"}, {"-date#d", "-_id"}, {"-_score", "_id"}, {"_score", "-_id"}, {"kw", "-num", "_id"},
 }
 
 // partial sorts (not total): compared per tie group, requested with Size covering everything
@@ -88,14 +88,24 @@ func GenReq(g qeval.R, ids []string, rich bool) Req {
 	return r
 }
 
-// sortOrder parses sort keys "field", "-field", "field:min", "-field:max" (the mode picks the value of a
+// sortOrder parses sort keys "field", "-field", "field#n" / "field#d" (explicit number / date type), "field:min",
+// "-field:max" (the mode picks the value of a
 // multi-valued field; without a mode the key of such a field is "the first value visited", which is not a function
 // of the document).
 func sortOrder(keys []string) search.SortOrder {
 	var so search.SortOrder
 	for _, k := range keys {
 		name, mode, has := strings.Cut(k, ":")
+		name, typ, typed := strings.Cut(name, "#")
 		ss := search.ParseSearchSortString(name)
+		if sf, ok := ss.(*search.SortField); ok && typed {
+			// an explicitly typed sort: keys are reported, and SearchAfter keys are given, in decoded form
+			if typ == "n" {
+				sf.Type = search.SortFieldAsNumber
+			} else {
+				sf.Type = search.SortFieldAsDate
+			}
+		}
 		if sf, ok := ss.(*search.SortField); ok && has {
 			if mode == "min" {
 				sf.Mode = search.SortFieldMin
